@@ -47,6 +47,7 @@ def required(tier):
     from vlib.emis import OPTIONS
     cl = ['outcome:balanced', 'outcome:named-refusal', 'data:nvpm_data=no-engine-database-entry',
           'data:fuel=zero-sulfur', 'data:fuel=SAF(no lifecycle data)', 'data:fuel=jetA',
+          'data:fuel=zero-life-cycle-CO2', 'stdout:ascii-only',
           'data:apu=none', 'data:apu=normal']
     for k, vals in OPTIONS.items():
         for v in vals:
@@ -74,7 +75,7 @@ def run_shard(spec, rec):
         for kk in ('flows', 'nvpm_data', 'apu'):
             rec.cls(f'data:{kk}={pm.desc[kk]}')
         from AEIC.types import Fuel
-        fk = (spec['part'] + spec['dataset']) % 4
+        fk = (spec['part'] + spec['dataset']) % 5
         if fk == 0:
             fuel, fuel_kind = emis.gen_fuel(random.Random(1))          # jet-A
         elif fk == 1:
@@ -84,6 +85,12 @@ def run_shard(spec, rec):
                                    EI_CO2=3100.0, non_volatile_carbon_fraction=0.95,
                                    lifecycle_CO2=30.0, fuel_sulfur_content_nom=0.0,
                                    sulfate_yield_nom=rng.choice([0.0, 0.02])), 'zero-sulfur'
+        elif fk == 4:
+            # a fully offset fuel: life-cycle CO2 is known and exactly zero
+            fuel, fuel_kind = Fuel(name='net-zero', energy_MJ_per_kg=43.5, EI_H2O=1250.0,
+                                   EI_CO2=3150.0, non_volatile_carbon_fraction=0.95,
+                                   lifecycle_CO2=0.0, fuel_sulfur_content_nom=rng.choice([0.0, 15.0]),
+                                   sulfate_yield_nom=0.02), 'zero-life-cycle-CO2'
         else:
             fuel, fuel_kind = Fuel(name='SAF', energy_MJ_per_kg=44.1, EI_H2O=1356.72515,
                                    EI_CO2=3155.6, non_volatile_carbon_fraction=0.95,
@@ -95,7 +102,13 @@ def run_shard(spec, rec):
         rec.cls(f"data:split={tdesc['split']}")
         if spec['part'] < 2:
             rec.sample({'pm': pm.desc, 'trajectory': tdesc})
-        sink = io.StringIO()
+        # what the library prints goes to a stream like a real terminal / log file; every
+        # other shard's stream can only encode ASCII (C locale, redirected output)
+        if spec['part'] % 2:
+            sink = io.TextIOWrapper(io.BytesIO(), encoding='ascii', errors='strict')
+            rec.cls('stdout:ascii-only')
+        else:
+            sink = io.StringIO()
         for i, cfg in enumerate(emis.option_product()):
             # configurations are dealt to the shards by a hash, not by i % 16: the product's
             # fastest-varying switches (APU, GSE, life-cycle) would otherwise be constant within
